@@ -59,6 +59,7 @@ API_STEPS = [
     "partial_sum_product",
     "joint_mixture",
     "approximate",
+    "kernels_on_edge_values",
 ]
 
 
@@ -255,6 +256,9 @@ class ApiCtx:
         self.l_ij = self.leaf("l_ij", l1)
         self.l_jk = self.leaf("l_jk", l2)
         self.white = self.leaf("white", g.standard_normal((2, 3)))
+        # values the array kernels special-case: exact zeros (both signs), infinities, huge and tiny magnitudes
+        self.z_ij = self.leaf("z_ij", np.array([[0.0, 1.5, -0.0], [np.inf, 1e-300, 0.0]]))
+        self.zneg_ij = self.leaf("zneg_ij", np.array([[-np.inf, -2.0, 0.0], [1e300, -1e-300, 3.0]]))
         # terms the session holds from the start: the catalogue operates on
         # previously obtained funsors (hash-consing hands the same objects back)
         for label, term in [
@@ -415,6 +419,37 @@ def api_step(name, ctx, env_values):
         out.append(ops.safesub(a, c))
         out.append(ops.safediv(a, c))
         out.append(ops.clamp(a, 0.5, 1.5))
+        return out
+    if name == "kernels_on_edge_values":
+        z, zn = ctx.T(ctx.z_ij, "ij"), ctx.T(ctx.zneg_ij, "ij")
+        out = []
+        with np.errstate(all="ignore"):
+            for t in (z, zn):
+                for fn in ("exp", "log", "sqrt", "abs", "sigmoid", "neg", "reciprocal", "log1p", "tanh", "sign" if hasattr(ops, "sign") else "abs"):
+                    try:
+                        out.append(getattr(ops, fn)(t))
+                    except Exception:  # noqa
+                        pass
+                for fn in ("logaddexp", "safesub", "safediv", "add", "mul", "truediv", "max", "min", "sub"):
+                    for lhs, rhs in ((a, t), (t, a), (t, t)):
+                        try:
+                            out.append(getattr(ops, fn)(lhs, rhs))
+                        except Exception:  # noqa
+                            pass
+                try:
+                    out.append(ops.clamp(t, -1.0, 1.0))
+                    out.append(t.clamp_finite())
+                    out.append(t.reduce(ops.logaddexp, "j"))
+                    out.append(t.reduce(ops.mul, "i"))
+                except Exception:  # noqa
+                    pass
+                # the same operations arrived at through rewriting (normalize turns a / t into a * reciprocal(t), a - t into a + (-t))
+                try:
+                    with f.interpretations.normalize:
+                        q = [a / t, a - t, (a * t).reduce(ops.add, "j") / c]
+                    out.extend(f.reinterpret(x) for x in q)
+                except Exception:  # noqa
+                    pass
         return out
     if name == "logspace_contraction":
         la, lb = ctx.T(ctx.l_ij, "ij"), ctx.T(ctx.l_jk, "jk")
